@@ -56,6 +56,9 @@ func childMain() {
 	var cur atomic.Int64
 	var curOp atomic.Int64
 	deadline := time.Duration(childOpSeconds) * time.Second
+	if h.Codec == "magic" {
+		deadline = 3 * time.Second // tiny inputs, our own streams
+	}
 	if h.Goroutines > 0 {
 		deadline *= 3
 	}
